@@ -10,4 +10,5 @@ let table = [
   ("evm", Model.entry_evm);
   ("recover", Model.entry_recover);
   ("guards", Model.entry_guards);
+  ("p2precv", Model.entry_p2precv);
 ]
